@@ -104,3 +104,10 @@ check(
     "Trusts the snapshot to be complete for the argument kinds used (xarray objects, numpy arrays, lists, dicts); netCDF writers exercised through the scipy NETCDF3 backend only.",
     "DESIGN.md section 5 C17",
 )
+check(
+    "C18",
+    "model-based generation of histories (accessor calls, in-place edits, partition calls on other shapes, bad statistic names, attribute-table look-ups, reader calls) interpreted against a plain-numpy model; every observation compared with a fresh object and with a pristine forked process that never executed an operation",
+    "Hundreds (quick) / thousands (thorough) of histories of up to 12 / 30 steps on 1-3 live objects; values and attributes compared bit for bit; Dataset accessor vs efth accessor compared at every observation. Exploration over histories.",
+    "Histories are explicit step lists (a JSON replay file is the history) rather than a RuleBasedStateMachine; the pristine process is forked from a server that imported the library but never ran an operation; operations needing live wind fields on bare DataArrays are compared in-process only.",
+    "DESIGN.md section 5 C18",
+)
